@@ -84,6 +84,16 @@ CLAIMS = {
         design="6 C12",
         technique="explicit TLA+ spec (ideal + as-built transcription) + TLC; TLC-enumerated cases replayed on the code and judged by TLC",
     ),
+    "C16": dict(
+        spec="FsScript.tla / FsScriptGen.tla / FsScriptJudge.tla",
+        text="TLC model-checks the script specification (results and effects of execute_string = those of one-by-one execution, "
+        "comments / empty statements ignored, stop at the first failure with the prefix applied, a no-op'd statement is a stutter "
+        "step, non-matching statements behave as without the option), enumerates scripts of up to three items over nine literal "
+        "payload classes and both cursor classes, and replays them (whitespace, comment text and final semicolon varied by seed) "
+        "through execute_string and through single executes on real connections, with and without nop_regexes; judged by TLC.",
+        design="6 C16",
+        technique="explicit TLA+ spec + TLC model checking; TLC-enumerated scripts replayed on the code both ways and judged by TLC",
+    ),
 }
 
 
